@@ -20,6 +20,7 @@ func scenarioC10(rc *RunCtx) {
 	pf.PPark = 50
 	pf.PCustom = 40
 	pf.PCleanupFail = 50
+	pf.PCleanupSkip = 30
 	pf.PRepeat = 30
 	pf.PSkip = 25
 	pf.MinFail, pf.MaxFail = 0, 3
